@@ -47,7 +47,9 @@ Definition Good (ks : list (Z * Z)) (st : state) (tr : list output) (rid : Z) : 
     (in_backlog rid st -> n = O) /\
     (n <> O -> (exists e, In e (active_exchanges st) /\ e_rid e = rid) \/ In (m_remote m, m_mid m) ks \/ In (err_key (m_remote m)) ks \/
                (Z.of_nat n = MAX_RETRANSMIT (m_tuning m) + 1 /\
-                (In (OFail (T0 + t * (2 ^ (MAX_RETRANSMIT (m_tuning m) + 1) - 1)) rid ConRetransmitsExceeded) tr \/ In (gone_key rid) ks))).
+                (In (OFail (T0 + t * (2 ^ (MAX_RETRANSMIT (m_tuning m) + 1) - 1)) rid ConRetransmitsExceeded) tr \/ In (gone_key rid) ks)) \/
+               (* ended by MessageManager.dispatch_error running inside send() of a refusing transport: the request failed with it *)
+               ((exists tf, In (OFail tf rid NetworkError) tr) \/ In (gone_key rid) ks)).
 
 Definition Hist (seen : list Z) (ks : list (Z * Z)) (st : state) (tr : list output) : Prop :=
   (forall rid, ~ In rid seen -> copies rid tr = []) /\ forall rid, Good ks st tr rid.
@@ -76,12 +78,14 @@ Proof.
   exists m, T0, t, n. splits; auto.
   - rewrite copies_app, Ho, app_nil_r. exact Hc.
   - intros e He Hr. apply Ht; auto.
-  - intros Hn0. destruct (Hcl Hn0) as [[e [He1 He2]]|[Hin|[Hin|[Hx [Hin|Hin]]]]].
+  - intros Hn0. destruct (Hcl Hn0) as [[e [He1 He2]]|[Hin|[Hin|[[Hx [Hin|Hin]]|[[tf Hin]|Hin]]]]].
     + left. exists e. auto.
     + right. left. auto.
     + right. right. left. auto.
-    + right. right. right. split; auto. left. apply in_app_iff. auto.
-    + right. right. right. split; auto.
+    + right. right. right. left. split; auto. left. apply in_app_iff. auto.
+    + right. right. right. left. split; auto.
+    + right. right. right. right. left. exists tf. apply in_app_iff. auto.
+    + right. right. right. right. right. auto.
 Qed.
 
 (* a message put on the wire for the first time ([_send_initially]) *)
@@ -100,17 +104,130 @@ Proof.
   - intros _. left. eexists. split; [rewrite Ex; apply in_xset; left; reflexivity|]. unfold e_rid, e_timer. cbn. exact Hm.
 Qed.
 
+Lemma copies_fail_only : forall rid (o : list output), (forall t m, ~ In (OSend t m) o) -> copies rid o = [].
+Proof.
+  induction o as [|x o IH]; intros H; cbn; auto. destruct x; try (apply IH; intros t' m' Hi; apply (H t' m'); right; exact Hi).
+  exfalso. apply (H t m). left. reflexivity.
+Qed.
+
+(* ---- MessageManager.dispatch_error for a remote r in a state satisfying the invariants: reported by the transport (EError), or run
+   from inside message_interface.send by a transport that refuses a datagram (then the datagram itself is not on the wire) ---- *)
+Lemma error_outputs : forall st r rid, In (rid, r) (outgoing_requests st) ->
+  In (OFail (now st) rid NetworkError) (map (fun q => OFail (now st) (fst q) NetworkError) (filter (fun q => snd q =? r) (outgoing_requests st))).
+Proof. intros. apply in_map_iff. exists (rid, r). split; auto. apply filter_In. split; auto. cbn. apply Z.eqb_refl. Qed.
+
+Lemma good_dispatch : forall seen ks ks' st tr r st' o x, Struct seen st -> Good ks st tr x ->
+  (forall e, In e (active_exchanges st) -> e_rid e = x -> e_remote e = r -> In (x, r) (outgoing_requests st) \/ In (gone_key x) ks') ->
+  mm_dispatch_error st r = (st', o) -> incl ks ks' -> Good ks' st' (tr ++ o) x.
+Proof.
+  intros seen ks ks' st tr r st' o x S (m & T0 & t & n & Hcp & Hn & Ht & Hb & Hcl) Hp H Hk.
+  destruct (error_struct _ _ _ _ _ S H) as (S' & _ & En & Ex & Eb & Eo & ->).
+  assert (Hc : copies x (map (fun q => OFail (now st) (fst q) NetworkError) (filter (fun q => snd q =? r) (outgoing_requests st))) = []).
+  { apply copies_fail_only. intros t' m' Hi. apply in_map_iff in Hi. destruct Hi as [p [Hp' _]]. discriminate. }
+  assert (Hsub : forall e, In e (active_exchanges st') <-> In e (active_exchanges st) /\ e_remote e <> r).
+  { intros e. rewrite Ex, filter_In, negb_true_iff, Z.eqb_neq. reflexivity. }
+  exists m, T0, t, n. splits; auto.
+  - rewrite copies_app, Hc, app_nil_r. exact Hcp.
+  - intros e He Hr. apply Hsub in He. apply Ht; tauto.
+  - intros Hi. apply Hb. unfold in_backlog in *. rewrite Eb in Hi. apply (count_occ_In Z.eq_dec) in Hi. apply (count_occ_In Z.eq_dec). pose proof (cnt_qdel_le (backlogs st) r x). lia.
+  - intros Hn0. destruct (Hcl Hn0) as [[e [He1 He2]]|[Hin|[Hin|[[Hx [Hin|Hin]]|[[tf Hin]|Hin]]]]].
+    + destruct (Z.eq_dec (e_remote e) r) as [Hr|Hr].
+      * right. right. right. right. destruct (Hp e He1 He2 Hr) as [Ho|Hg]; [left|right; exact Hg].
+        exists (now st). apply in_app_iff. right. apply error_outputs. exact Ho.
+      * left. exists e. split; auto. apply Hsub. auto.
+    + right. left. auto.
+    + right. right. left. auto.
+    + right. right. right. left. split; auto. left. apply in_app_iff. auto.
+    + right. right. right. left. split; auto.
+    + right. right. right. right. left. exists tf. apply in_app_iff. auto.
+    + right. right. right. right. right. auto.
+Qed.
+
+Lemma good_drop_send : forall ks st tr t m x, Good ks st (tr ++ [OSend t m]) x -> m_rid m <> x -> Good ks st tr x.
+Proof.
+  intros ks st tr t m x (m0 & T0 & t0 & n & Hcp & Hn & Ht & Hb & Hcl) Hne.
+  assert (Hin : forall o, In o (tr ++ [OSend t m]) -> (forall a b, o <> OSend a b) -> In o tr).
+  { intros o Hi Hno. apply in_app_iff in Hi. destruct Hi as [Hi|[Hi|[]]]; auto. exfalso. eapply Hno. symmetry. exact Hi. }
+  exists m0, T0, t0, n. splits; auto.
+  - rewrite copies_app in Hcp. cbn in Hcp. assert (m_rid m =? x = false) as E by (apply Z.eqb_neq; auto). rewrite E, app_nil_r in Hcp. exact Hcp.
+  - intros Hn0. destruct (Hcl Hn0) as [H|[H|[H|[[Hx [H|H]]|[[tf H]|H]]]]]; auto.
+    + right. right. right. left. split; auto. left. apply Hin; auto. discriminate.
+    + right. right. right. left. auto.
+    + right. right. right. right. left. exists tf. apply Hin; auto. discriminate.
+    + right. right. right. right. right. auto.
+Qed.
+
+Lemma sched_of_snoc_inv : forall m0 T0 t0 n l t m, l ++ [(t, m)] = sched_of m0 T0 t0 n ->
+  exists n', n = S n' /\ l = sched_of m0 T0 t0 n' /\ m = m0.
+Proof.
+  intros m0 T0 t0 n l t m H. destruct n as [|n'].
+  - unfold sched_of in H. cbn in H. destruct l; discriminate.
+  - rewrite sched_of_S in H. apply app_inj_tail in H. destruct H as [H1 H2]. inv H2. exists n'. auto.
+Qed.
+
+(* a datagram handed to a refusing transport: [st1] is the state right before message_interface.send, with the invariants that
+   would hold had the datagram gone out ([OSend] phantom); what really happens is dispatch_error for the remote, no datagram *)
+Lemma hist_refused : forall seen ks st1 tr tm m e1 st' oe,
+  Struct seen st1 -> Hist seen ks st1 (tr ++ [OSend tm m]) ->
+  In e1 (active_exchanges st1) -> h_message (e_timer e1) = m ->
+  (In (m_rid m, m_remote m) (outgoing_requests st1) \/ In (gone_key (m_rid m)) ks) ->
+  mm_dispatch_error st1 (m_remote m) = (st', oe) -> Hist seen ks st' (tr ++ oe).
+Proof.
+  intros seen ks st1 tr tm m e1 st' oe S [Hun Hg] Hin1 Hm1 Hpend H.
+  pose proof (s_ex _ _ S) as Hex. rewrite Forall_forall in Hex.
+  assert (Hrem : forall e, In e (active_exchanges st1) -> e_remote e = m_remote (h_message (e_timer e))).
+  { intros e He. pose proof (Hex e He) as Hok. unfold entry_ok in Hok. destruct Hok as (Hk & _). unfold e_remote. rewrite Hk. reflexivity. }
+  destruct (error_struct _ _ _ _ _ S H) as (S' & _ & En & Ex & Eb & Eo & Eoe).
+  assert (Hc : forall x, copies x oe = []).
+  { intros x. rewrite Eoe. apply copies_fail_only. intros t' m' Hi. apply in_map_iff in Hi. destruct Hi as [p [Hp' _]]. discriminate. }
+  split.
+  - intros x Hx. rewrite copies_app, Hc, app_nil_r. specialize (Hun x Hx). rewrite copies_app in Hun. apply app_eq_nil in Hun. tauto.
+  - intros x. destruct (Z.eq_dec (m_rid m) x) as [<-|Hne].
+    + destruct (Hg (m_rid m)) as (m0 & T0 & t0 & n & Hcp & Hn & Ht & Hb & Hcl).
+      rewrite copies_app in Hcp. cbn in Hcp. rewrite Z.eqb_refl in Hcp.
+      destruct (sched_of_snoc_inv _ _ _ _ _ _ _ Hcp) as (n' & -> & Hcp' & <-).
+      destruct (Hn ltac:(discriminate)) as (Hrid & Hrg & Hle).
+      exists m, T0, t0, n'. splits; auto.
+      * rewrite copies_app, Hc, app_nil_r. exact Hcp'.
+      * intros _. splits; auto. lia.
+      * intros e He Hr. exfalso. rewrite Ex in He. apply filter_In in He. destruct He as [He Hnr]. apply negb_true_iff in Hnr. apply Z.eqb_neq in Hnr.
+        destruct (Ht e He Hr) as (Hme & _). apply Hnr. change (fst (fst e)) with (e_remote e). rewrite (Hrem e He), Hme. reflexivity.
+      * intros Hi. exfalso. assert (Datatypes.S n' = O); [|discriminate]. apply Hb. unfold in_backlog in *. rewrite Eb in Hi.
+        apply (count_occ_In Z.eq_dec) in Hi. apply (count_occ_In Z.eq_dec). pose proof (cnt_qdel_le (backlogs st1) (m_remote m) (m_rid m)). lia.
+      * intros _. right. right. right. right. destruct Hpend as [Ho|Hgn]; [left|right; exact Hgn].
+        exists (now st1). apply in_app_iff. right. rewrite Eoe. apply error_outputs. exact Ho.
+    + apply (good_dispatch seen ks ks st1 tr (m_remote m) st' oe x S); auto; [eapply good_drop_send; eauto| |apply incl_refl].
+      intros e He Hr Hrm. exfalso. apply Hne. rewrite <- Hr.
+      assert (e = e1) as -> by (apply (in_unique_map e_remote (active_exchanges st1)); auto; [apply (s_ex_nodup _ _ S)|rewrite Hrm, (Hrem e1 Hin1), Hm1; reflexivity]).
+      unfold e_rid. rewrite Hm1. reflexivity.
+Qed.
+
+(* dispatch_error for r in a state satisfying all invariants (transport error event, or a refused empty ACK / RST) *)
+Lemma hist_dispatch : forall seen ks ks' st tr r st' o, Struct seen st -> Hist seen ks st tr -> Pend ks st ->
+  mm_dispatch_error st r = (st', o) -> incl ks ks' -> Hist seen ks' st' (tr ++ o).
+Proof.
+  intros seen ks ks' st tr r st' o S [Hun Hg] [P1 _] H Hk.
+  destruct (error_struct _ _ _ _ _ S H) as (_ & _ & _ & _ & _ & _ & Eo).
+  split.
+  - intros x Hx. rewrite copies_app, (Hun x Hx). rewrite Eo. apply copies_fail_only. intros t' m' Hi. apply in_map_iff in Hi. destruct Hi as [p [Hp' _]]. discriminate.
+  - intros x. apply (good_dispatch seen ks ks' st tr r st' o x S); auto.
+    intros e He Hr Hrm. destruct (P1 e He) as [Ho|Hgn]; [left; rewrite <- Hr, <- Hrm; exact Ho|right; apply Hk; rewrite <- Hr; exact Hgn].
+Qed.
+
 Lemma request_shape : forall seen st rid r tn st' o, Struct seen st -> ~ In rid seen -> wf_tuning tn ->
   tm_request st rid r tn = (st', o) ->
   let m := {| m_remote := r; m_mid := message_id st; m_rid := rid; m_tuning := tn |} in
-  outgoing_requests st' = outgoing_requests st ++ [(rid, r)] /\
   ((exists q, qget r (backlogs st) = Some q /\ o = [] /\ active_exchanges st' = active_exchanges st /\
-             backlogs st' = qset r (q ++ [(m, rid)]) (backlogs st)) \/
-  (qget r (backlogs st) = None /\ (forall e, In e (active_exchanges st) -> e_remote e <> r) /\ exists t sq, range tn t /\
-     o = [ODraw (now st) (ACK_TIMEOUT tn) (ACK_TIMEOUT tn * ARF_num tn / ARF_den tn) t; OSend (now st) m] /\
-     active_exchanges st' = xset (r, message_id st) (rid, {| h_due := now st + t; h_seq := sq; h_message := m; h_timeout := t; h_counter := 0 |}) (active_exchanges st) /\
-     (forall x, In x (back_rids (backlogs st')) -> In x (back_rids (backlogs st))) /\
-     (forall b, In b (backlogs st') -> In b (backlogs st) \/ b = (r, [])))).
+             backlogs st' = qset r (q ++ [(m, rid)]) (backlogs st) /\ outgoing_requests st' = outgoing_requests st ++ [(rid, r)]) \/
+  (qget r (backlogs st) = None /\ (forall e, In e (active_exchanges st) -> e_remote e <> r) /\ exists t sq st1 oe, range tn t /\
+     Struct (rid :: seen) st1 /\ now st1 = now st /\ outgoing_requests st1 = outgoing_requests st ++ [(rid, r)] /\
+     active_exchanges st1 = xset (r, message_id st) (rid, {| h_due := now st + t; h_seq := sq; h_message := m; h_timeout := t; h_counter := 0 |}) (active_exchanges st) /\
+     (forall x, In x (back_rids (backlogs st1)) -> In x (back_rids (backlogs st))) /\
+     (forall b, In b (backlogs st1) -> In b (backlogs st) \/ b = (r, [])) /\
+     ((is_refusing st r = false /\ st' = st1 /\
+       o = [ODraw (now st) (ACK_TIMEOUT tn) (ACK_TIMEOUT tn * ARF_num tn / ARF_den tn) t; OSend (now st) m]) \/
+      (is_refusing st r = true /\ mm_dispatch_error st1 r = (st', oe) /\
+       o = ODraw (now st) (ACK_TIMEOUT tn) (ACK_TIMEOUT tn * ARF_num tn / ARF_den tn) t :: oe)))).
 Proof.
   intros seen st rid r tn st' o S Hfresh Hwf H m.
   unfold tm_request, send_message, _next_message_id in H. proj. fold m in H.
@@ -123,15 +240,15 @@ Proof.
   - assert (HX : has_exchange_with st0 r = true).
     { rewrite <- (s_nstart _ _ S0). unfold in_backlogs. cbn. rewrite Q. reflexivity. }
     change (has_exchange_with st r) with (has_exchange_with st0 r) in H. rewrite HX in H. inv H.
-    split; [reflexivity|]. left. exists q. splits; auto.
+    left. exists q. splits; auto.
   - assert (HX : has_exchange_with st0 r = false).
     { rewrite <- (s_nstart _ _ S0). unfold in_backlogs. cbn. rewrite Q. reflexivity. }
     apply (send_initially_struct (rid :: seen)) in H; auto; try (destruct S0; auto; fail).
-    + destruct H as (S' & t & Hrg & -> & E1 & E2 & E3 & E4). split; [exact E2|].
+    + destruct H as (S' & st1 & t & oe & S1 & Hrg & E1 & E2 & E5 & E3 & E4 & Hcase & _).
       right. split; auto. split; [apply (proj1 (has_exchange_false st0 r) HX)|].
       assert (in_backlogs st0 r = false) as IB by (unfold in_backlogs; cbn; rewrite Q; reflexivity).
       cbn [m_remote m] in E4. rewrite IB in E4. unfold qset in E4. rewrite qdel_notin in E4 by (apply qget_none; exact Q).
-      exists t, (next_seq st0). splits; auto.
+      exists t, (next_seq st0), st1, oe. splits; auto.
       * intros x Hx. rewrite E4 in Hx. exact Hx.
       * intros b Hb. rewrite E4 in Hb. destruct Hb as [<-|Hb]; auto.
     + constructor; [|apply (s_live _ _ S0)]. intros Hin. apply Hfresh. eapply live_rids_seen; [exact S|]. exact Hin.
@@ -149,7 +266,7 @@ Proof.
   intros seen ks st tr rid r tn st' o S [Hun Hg] Hfresh Hwf H.
   pose proof (request_shape _ _ _ _ _ _ _ S Hfresh Hwf H) as Sh. cbv zeta in Sh.
   set (m := {| m_remote := r; m_mid := message_id st; m_rid := rid; m_tuning := tn |}) in *.
-  destruct Sh as (Eo & [(q & Q & -> & Ex & Eb)|(Q & Hno & t & sq & Hrg & -> & Ex & Eb & Ebl)]).
+  destruct Sh as [(q & Q & -> & Ex & Eb & Eo)|(Q & Hno & t & sq & st1 & oe & Hrg & S1 & En1 & Eo1 & Ex & Eb & Ebl & Hcase)].
   - (* put into the backlog *)
     split.
     + intros x Hx. rewrite app_nil_r. apply Hun. intros Hi. apply Hx. right. exact Hi.
@@ -163,42 +280,46 @@ Proof.
         rewrite cnt_qset in Hc. unfold q_rids in Hc. rewrite map_app, count_occ_app in Hc. cbn [map fst m_rid m] in Hc.
         assert (count_occ Z.eq_dec [rid] x = 0)%nat by (cbn; destruct (Z.eq_dec rid x); congruence).
         apply (count_occ_In Z.eq_dec). rewrite (cnt_qdel_split _ _ _ x (s_bl_nodup _ _ S) Q). unfold q_rids. lia.
-  - (* sent right away *)
+  - (* handed to the transport right away *)
+    assert (H1 : Hist (rid :: seen) ks st1 (tr ++ [ODraw (now st) (ACK_TIMEOUT tn) (ACK_TIMEOUT tn * ARF_num tn / ARF_den tn) t; OSend (now st) m])).
+    2:{ destruct Hcase as [(_ & -> & ->)|(_ & D & ->)]; [exact H1|].
+        change (tr ++ ODraw (now st) (ACK_TIMEOUT tn) (ACK_TIMEOUT tn * ARF_num tn / ARF_den tn) t :: oe) with (tr ++ [ODraw (now st) (ACK_TIMEOUT tn) (ACK_TIMEOUT tn * ARF_num tn / ARF_den tn) t] ++ oe).
+        rewrite app_assoc. change (tr ++ [ODraw (now st) (ACK_TIMEOUT tn) (ACK_TIMEOUT tn * ARF_num tn / ARF_den tn) t; OSend (now st) m])
+          with (tr ++ [ODraw (now st) (ACK_TIMEOUT tn) (ACK_TIMEOUT tn * ARF_num tn / ARF_den tn) t] ++ [OSend (now st) m]) in H1. rewrite app_assoc in H1.
+        eapply (hist_refused (rid :: seen) ks st1 _ (now st) m); eauto.
+        - rewrite Ex. apply in_xset. left. reflexivity.
+        - reflexivity.
+        - left. rewrite Eo1. apply in_app_iff. right. left. reflexivity. }
     split.
     + intros x Hx. rewrite copies_app, (Hun x); [|intros Hi; apply Hx; right; exact Hi]. cbn.
       assert (rid =? x = false) as -> by (apply Z.eqb_neq; intros ->; apply Hx; left; reflexivity). reflexivity.
     + intros x. destruct (Z.eq_dec x rid) as [->|Hne].
-      * eapply (good_start ks st' tr _ rid m (now st) t); eauto.
+      * eapply (good_start ks st1 tr _ rid m (now st) t); eauto.
         -- cbn. rewrite Z.eqb_refl. reflexivity.
         -- intros e He Hr. apply Hfresh. rewrite <- Hr. eapply live_exch_seen; eauto.
         -- intros Hi. apply Eb in Hi. apply Hfresh. eapply live_back_seen; eauto.
-      * apply (good_frame ks ks st st' tr _ x (Hg x)); [| | |intros Hi; apply Eb; exact Hi|apply incl_refl].
+      * apply (good_frame ks ks st st1 tr _ x (Hg x)); [| | |intros Hi; apply Eb; exact Hi|apply incl_refl].
         -- cbn. assert (rid =? x = false) as -> by (apply Z.eqb_neq; congruence). reflexivity.
         -- intros e He Hr. rewrite Ex in He. apply in_xset in He. destruct He as [->|[He _]]; auto. unfold e_rid, e_timer in Hr. cbn in Hr. congruence.
         -- intros e He Hr. rewrite Ex. apply in_xset. right. split; auto. intros Hk. apply (Hno e He). unfold e_remote. rewrite Hk. reflexivity.
 Qed.
 
-Lemma copies_fail_only : forall rid (o : list output), (forall t m, ~ In (OSend t m) o) -> copies rid o = [].
-Proof.
-  induction o as [|x o IH]; intros H; cbn; auto. destruct x; try (apply IH; intros t' m' Hi; apply (H t' m'); right; exact Hi).
-  exfalso. apply (H t m). left. reflexivity.
-Qed.
 
-Lemma hist_recv : forall seen ks st tr r mid b st' o, Struct seen st -> Hist seen ks st tr ->
+Lemma hist_recv : forall seen ks st tr r mid b st' o, Struct seen st -> Hist seen ks st tr -> Pend ks st ->
   _remove_exchange st r mid b = (st', o) -> Hist seen ((r, mid) :: ks) st' (tr ++ o).
 Proof.
-  intros seen ks st tr r mid b st' o S [Hun Hg] H.
+  intros seen ks st tr r mid b st' o S [Hun Hg] [_ Pd2] H.
   assert (Hincl : incl ks ((r, mid) :: ks)) by (intros x Hx; right; exact Hx).
-  destruct (recv_shape _ _ _ _ _ _ _ S H) as [(X & -> & ->)|(mon & h & st2 & o1 & o2 & X & -> & Ho1c & _ & En & Er & Es & Ex & Eb & Enr & _ & _ & C)].
+  destruct (recv_shape _ _ _ _ _ _ _ S H) as [(X & -> & ->)|(mon & h & st2 & o1 & o2 & X & -> & Ho1c & _ & En & Er & Es & Ex & Eb & Enr & Hkeep & _ & C)].
   - split; [intros x Hx; rewrite app_nil_r; auto|]. intros x. apply (good_frame ks _ st st tr [] x (Hg x)); auto.
   - destruct (pop_facts seen st _ mon h S X) as (Hin & Hok & Hmon & Hk & _ & Hrest & Hbr & Hnd & Hcnt). cbn [fst] in *.
     change r with (fst (r, mid)) in C. apply (continue_after_pop seen st (r, mid) mon h st2 st' o2 S X En Er Ex Eb Enr) in C.
-    destruct C as (S' & _ & _ & _ & q & Q & Hq). cbn [fst] in *.
+    destruct C as (S' & _ & q & Q & Hq). cbn [fst] in *.
     assert (Ho1 : forall x, copies x o1 = []) by (intros x; destruct Ho1c as [->|[_ ->]]; reflexivity).
     (* Good for the closed exchange *)
-    assert (Gmon : forall o2', copies mon o2' = [] -> (forall e, In e (active_exchanges st') -> e_rid e <> mon) ->
-                   (forall x, In x (back_rids (backlogs st')) -> x <> mon) -> Good ((r, mid) :: ks) st' (tr ++ o1 ++ o2') mon).
-    { intros o2' Hc2 Hex' Hb'. destruct (Hg mon) as (m & T0 & t & n & Hc & Hn & Ht & Hb & Hcl).
+    assert (Gmon : forall stx o2', copies mon o2' = [] -> (forall e, In e (active_exchanges stx) -> e_rid e <> mon) ->
+                   (forall x, In x (back_rids (backlogs stx)) -> x <> mon) -> Good ((r, mid) :: ks) stx (tr ++ o1 ++ o2') mon).
+    { intros stx o2' Hc2 Hex' Hb'. destruct (Hg mon) as (m & T0 & t & n & Hc & Hn & Ht & Hb & Hcl).
       destruct (Ht _ Hin) as (Hm & Hnc & _); [unfold e_rid, e_timer; cbn; auto|]. unfold e_timer in Hm, Hnc. cbn in Hm, Hnc.
       exists m, T0, t, n. splits; auto.
       - rewrite !copies_app, Ho1, Hc2, !app_nil_r. exact Hc.
@@ -206,7 +327,7 @@ Proof.
       - intros Hi. exfalso. eapply Hb'; eauto.
       - intros _. right. left. left. rewrite <- Hm. exact Hk. }
     destruct q as [|[m2 mon2] rest].
-    + destruct Hq as (-> & Ex' & Eb'). split.
+    + destruct Hq as (-> & Ex' & Eb' & _ & _). split.
       * intros x Hx. rewrite !copies_app, Ho1, !app_nil_r. auto.
       * intros x. destruct (Z.eq_dec x mon) as [->|Hne].
         -- apply Gmon; auto.
@@ -219,14 +340,22 @@ Proof.
               assert (e = ((r, mid), (mon, h))) as -> by (apply (in_unique_map e_remote (active_exchanges st)); auto; [apply (s_ex_nodup _ _ S)|unfold e_remote; rewrite Hk'; reflexivity]).
               unfold e_rid, e_timer. cbn. auto.
            ++ unfold in_backlog. rewrite Eb'. intros Hy. apply (count_occ_In Z.eq_dec) in Hy. apply (count_occ_In Z.eq_dec). pose proof (cnt_qdel_le (backlogs st) r x). lia.
-    + destruct Hq as (-> & Hr2 & Hwf2 & Hseen2 & t & Hrg & -> & Ex' & Eb').
+    + destruct Hq as (-> & Hr2 & Hwf2 & Hseen2 & t & st1 & oe & Hrg & S1 & En1 & Eo1 & Ex' & Eb' & Hcase).
+      set (dr := ODraw (now st) (ACK_TIMEOUT (m_tuning m2)) (ACK_TIMEOUT (m_tuning m2) * ARF_num (m_tuning m2) / ARF_den (m_tuning m2)) t) in *.
       assert (Hq' : In (r, (m2, m_rid m2) :: rest) (backlogs st)) by (apply qget_in; exact Q).
       assert (Hne2 : m_rid m2 <> mon) by (apply Hbr; apply (in_back_rids _ r _ (m2, m_rid m2) Hq'); left; reflexivity).
-      assert (Hb2 : forall y, In y (back_rids (backlogs st')) -> In y (back_rids (backlogs st)) /\ y <> m_rid m2).
-      { intros y Hy. pose proof (s_live _ _ S') as Hl. unfold live_rids in Hl. split.
+      assert (Hb2 : forall y, In y (back_rids (backlogs st1)) -> In y (back_rids (backlogs st)) /\ y <> m_rid m2).
+      { intros y Hy. pose proof (s_live _ _ S1) as Hl. unfold live_rids in Hl. split.
         - rewrite Eb' in Hy. apply (count_occ_In Z.eq_dec) in Hy. apply (count_occ_In Z.eq_dec). rewrite cnt_qset in Hy.
           rewrite (cnt_qdel_split _ _ _ y (s_bl_nodup _ _ S) Q). change (q_rids ((m2, m_rid m2) :: rest)) with ([m_rid m2] ++ q_rids rest). rewrite count_occ_app. lia.
         - intros ->. eapply nodup_app_disjoint; [exact Hl| |exact Hy]. rewrite Ex'. apply in_map_iff. eexists. split; [|apply in_xset; left; reflexivity]. reflexivity. }
+      assert (H1 : Hist seen ((r, mid) :: ks) st1 (tr ++ o1 ++ [dr; OSend (now st) m2])).
+      2:{ destruct Hcase as [(_ & -> & ->)|(_ & D & ->)]; [exact H1|].
+          change (dr :: oe) with ([dr] ++ oe). rewrite !app_assoc. change [dr; OSend (now st) m2] with ([dr] ++ [OSend (now st) m2]) in H1. rewrite !app_assoc in H1.
+          rewrite <- Hr2 in D. eapply (hist_refused seen _ st1 _ (now st) m2); eauto.
+          - rewrite Ex'. apply in_xset. left. reflexivity.
+          - reflexivity.
+          - rewrite Hr2, Eo1. destruct (Pd2 r _ (m2, m_rid m2) Hq' (or_introl eq_refl)) as [Ho|Hgn]; [left; apply Hkeep; auto|right; right; exact Hgn]. }
       split.
       * intros x Hx. rewrite !copies_app, Ho1, (Hun x Hx). cbn.
         assert (m_rid m2 =? x = false) as -> by (apply Z.eqb_neq; intros <-; tauto). reflexivity.
@@ -238,14 +367,14 @@ Proof.
         -- (* the next message from the backlog goes out for the first time *)
            destruct (Hg (m_rid m2)) as (m0 & T00 & t0 & n0 & Hc0 & _ & Ht0 & Hb0 & _).
            assert (n0 = O) by (apply Hb0; apply (in_back_rids _ r _ (m2, m_rid m2) Hq'); left; reflexivity). subst n0.
-           rewrite app_assoc. eapply (good_start _ st' (tr ++ o1) _ (m_rid m2) m2 (now st) t); eauto.
+           rewrite app_assoc. eapply (good_start _ st1 (tr ++ o1) _ (m_rid m2) m2 (now st) t); eauto.
            ++ rewrite copies_app, Ho1, Hc0. reflexivity.
            ++ cbn. rewrite Z.eqb_refl. reflexivity.
            ++ rewrite Ex'. unfold mk_timer. rewrite En. reflexivity.
            ++ intros e He Hr. apply Hrest in He. destruct He as (He & _). destruct (Ht0 e He Hr) as (_ & Hz & _).
               pose proof (s_ex _ _ S) as Hex. rewrite Forall_forall in Hex. specialize (Hex e He). unfold entry_ok in Hex. cbn in Hz. lia.
            ++ intros Hi. apply Hb2 in Hi. tauto.
-        -- apply (good_frame ks _ st st' tr _ x (Hg x)); auto.
+        -- apply (good_frame ks _ st st1 tr _ x (Hg x)); auto.
            ++ rewrite copies_app, Ho1. cbn. assert (m_rid m2 =? x = false) as -> by (apply Z.eqb_neq; auto). reflexivity.
            ++ intros e He Hr. rewrite Ex' in He. apply in_xset in He. destruct He as [->|[He _]]; [exfalso; apply Hne2'; rewrite <- Hr; reflexivity|]. apply Hrest in He. tauto.
            ++ intros e He Hr. rewrite Ex'. apply in_xset. right.
@@ -277,8 +406,14 @@ Proof.
   destruct (Hg (m_rid m)) as (m' & T0 & t & n & Hcp & Hn & Ht & Hb & Hcl).
   destruct (Ht _ Hin1) as (Hm & Hnc & Hto' & Hdue); [reflexivity|]. unfold e_timer in Hm, Hnc, Hto', Hdue. cbn [snd] in Hm, Hnc, Hto', Hdue. fold m in Hm. subst m'.
   assert (Hn0 : n <> O) by lia. destruct (Hn Hn0) as (_ & Hrg & _).
-  destruct Sh as [(Hlt & -> & Ex & Eb & Eo)|(Heq & -> & Ex & Eb & Eo)].
+  destruct Sh as [(Hlt & st1 & oe & S1 & En1 & Ex & Eb & Eo & Hcase)|(Heq & -> & Ex & Eb & Eo)].
   - (* retransmission *)
+    assert (H1 : Hist seen ks st1 (tr ++ [OSend (now st) m])).
+    2:{ destruct Hcase as [(_ & -> & ->)|(_ & D & ->)]; [exact H1|].
+        eapply (hist_refused seen ks st1 tr (now st) m); eauto.
+        - rewrite Ex. apply in_xset. left. reflexivity.
+        - reflexivity.
+        - rewrite Eo. destruct (Hp1 _ Hin1) as [Ho|Hgn]; [left; exact Ho|right; exact Hgn]. }
     split.
     + intros x Hx. rewrite copies_app, (Hun x Hx). cbn. assert (m_rid m =? x = false) as -> by (apply Z.eqb_neq; intros <-; tauto). reflexivity.
     + intros x. destruct (Z.eq_dec x (m_rid m)) as [->|Hne].
@@ -293,7 +428,7 @@ Proof.
            ++ apply Hrest in He. tauto.
         -- intros Hi. exfalso. unfold in_backlog in Hi. rewrite Eb in Hi. apply (Hbr _ Hi). reflexivity.
         -- intros _. left. eexists. split; [rewrite Ex; apply in_xset; left; reflexivity|]. reflexivity.
-      * apply (good_frame ks ks st st' tr _ x (Hg x)); auto; [| | |unfold in_backlog; rewrite Eb; auto|apply incl_refl].
+      * apply (good_frame ks ks st st1 tr _ x (Hg x)); auto; [| | |unfold in_backlog; rewrite Eb; auto|apply incl_refl].
         -- cbn. assert (m_rid m =? x = false) as -> by (apply Z.eqb_neq; auto). reflexivity.
         -- intros e He Hr. rewrite Ex in He. apply in_xset in He. destruct He as [->|[He _]]; [exfalso; apply Hne; rewrite <- Hr; reflexivity|]. apply Hrest in He. tauto.
         -- intros e He Hr. rewrite Ex. apply in_xset. right. pose proof (Hother x e Hne He Hr) as Hd. split; auto. apply in_xdel in Hd. tauto.
@@ -308,7 +443,7 @@ Proof.
         -- intros e He Hr. rewrite Ex in He. apply Hrest in He. tauto.
         -- intros Hi. exfalso. unfold in_backlog in Hi. rewrite Eb in Hi. apply (Hbr (m_rid m)); auto.
            apply (count_occ_In Z.eq_dec) in Hi. apply (count_occ_In Z.eq_dec). pose proof (cnt_qdel_le (backlogs st) (m_remote m) (m_rid m)). lia.
-        -- intros _. right. right. right. split; [lia|]. destruct (Hp1 _ Hin1) as [Hout|Hgone]; [left|right; exact Hgone].
+        -- intros _. right. right. right. left. split; [lia|]. destruct (Hp1 _ Hin1) as [Hout|Hgone]; [left|right; exact Hgone].
            apply in_app_iff. right. unfold gave_up_outputs. apply in_map_iff.
            exists (m_rid m, m_remote m). split.
            ++ cbn [fst]. f_equal. rewrite Hnow, Hdue, Heq. reflexivity.
@@ -329,65 +464,11 @@ Proof.
   - intros x. apply (good_frame ks ks' st st' tr o x (Hg x)); auto; try (rewrite Ex; auto; fail). unfold in_backlog. rewrite Eb. auto.
 Qed.
 
-(* a transport error for r: its exchanges and its backlog are gone, nothing is sent *)
-Lemma hist_error : forall seen ks st tr r st' o, Struct seen st -> Hist seen ks st tr -> mm_dispatch_error st r = (st', o) ->
-  Hist seen (err_key r :: ks) st' (tr ++ o).
-Proof.
-  intros seen ks st tr r st' o S [Hun Hg] H. destruct (error_struct _ _ _ _ _ S H) as (S' & _ & En & Ex & Eb & Eo & ->).
-  assert (Hc : forall x, copies x (map (fun q => OFail (now st) (fst q) NetworkError) (filter (fun q => snd q =? r) (outgoing_requests st))) = []).
-  { intros x. apply copies_fail_only. intros t m Hi. apply in_map_iff in Hi. destruct Hi as [p [Hp _]]. discriminate. }
-  assert (Hsub : forall e, In e (active_exchanges st') <-> In e (active_exchanges st) /\ e_remote e <> r).
-  { intros e. rewrite Ex, filter_In, negb_true_iff, Z.eqb_neq. reflexivity. }
-  pose proof (s_ex _ _ S) as Hex. rewrite Forall_forall in Hex.
-  split.
-  - intros x Hx. rewrite copies_app, Hc, app_nil_r. auto.
-  - intros x. destruct (Hg x) as (m & T0 & t & n & Hcp & Hn & Ht & Hb & Hcl). exists m, T0, t, n. splits; auto.
-    + rewrite copies_app, Hc, app_nil_r. exact Hcp.
-    + intros e He Hr. apply Hsub in He. apply Ht; tauto.
-    + intros Hi. apply Hb. unfold in_backlog in *. rewrite Eb in Hi. apply (count_occ_In Z.eq_dec) in Hi. apply (count_occ_In Z.eq_dec). pose proof (cnt_qdel_le (backlogs st) r x). lia.
-    + intros Hn0. destruct (Hcl Hn0) as [[e [He1 He2]]|[Hin|[Hin|[Hx [Hin|Hin]]]]].
-      * destruct (Z.eq_dec (e_remote e) r) as [Hr|Hr].
-        -- right. right. left. left. destruct (Ht e He1 He2) as (Hm & _). pose proof (Hex e He1) as Hok. unfold entry_ok in Hok. destruct Hok as (Hk & _).
-           unfold err_key. f_equal. rewrite <- Hr. unfold e_remote. rewrite Hk. cbn. rewrite Hm. reflexivity.
-        -- left. exists e. split; auto. apply Hsub. auto.
-      * right. left. right. exact Hin.
-      * right. right. left. right. exact Hin.
-      * right. right. right. split; auto. left. apply in_app_iff. auto.
-      * right. right. right. split; auto. right. right. exact Hin.
-Qed.
-
 Lemma hist_ks_mono : forall seen ks ks' st tr, Hist seen ks st tr -> incl ks ks' -> Hist seen ks' st tr.
 Proof.
   intros seen ks ks' st tr Hh Hk. rewrite <- (app_nil_r tr). apply (hist_same_exch seen ks ks' st st tr [] Hh); auto.
 Qed.
 
-Lemma step_hist : forall seen ks st tr e st' o, Struct seen st -> Hist seen ks st tr -> Pend ks st -> wf_event seen e -> step st e = (st', o) ->
-  Hist (seen_after seen e) (ks_after ks e) st' (tr ++ o).
-Proof.
-  intros seen ks st tr e st' o S Hh Hp W H. destruct e as [rid r tn|r b mid|t| | |r|rid|r ty mid rid|r on]; cbn [step seen_after ks_after] in *.
-  - destruct W as [W1 W2]. eapply hist_request; eauto.
-  - eapply hist_recv; eauto.
-  - inv H. rewrite app_nil_r. exact Hh.
-  - destruct (next_timer st) as [h|] eqn:N; [|inv H; rewrite app_nil_r; exact Hh].
-    destruct (next_timer_facts _ _ N) as (e & He1 & He2 & Hmin).
-    assert (S1 : Struct seen (set_now st (Z.max (now st) (h_due h)))) by (apply struct_set_now; auto).
-    eapply hist_retransmit in H; eauto. cbn.
-    pose proof (s_ex _ _ S) as Hex. rewrite Forall_forall in Hex. specialize (Hex e He1). unfold entry_ok in Hex. rewrite He2 in Hex. lia.
-  - destruct (next_timer st) as [h|] eqn:N; [|inv H; rewrite app_nil_r; exact Hh].
-    destruct (h_due h <=? now st) eqn:Hd; [|inv H; rewrite app_nil_r; exact Hh].
-    destruct (next_timer_facts _ _ N) as (e & He1 & He2 & Hmin).
-    eapply hist_retransmit in H; eauto.
-    pose proof (s_ex _ _ S) as Hex. rewrite Forall_forall in Hex. specialize (Hex e He1). unfold entry_ok in Hex. rewrite He2 in Hex. lia.
-  - eapply hist_error; eauto.
-  - inv H. apply (hist_same_exch seen ks _ st); auto. intros x Hx. right. exact Hx.
-  - destruct (response_shape _ _ _ _ _ _ _ _ S H) as (st1 & o1 & o2 & E1 & -> & S1 & Hn1 & En & Ex & Eb & Er & Enr & _ & _ & Hn2 & Hs2 & _).
-    assert (H1 : Hist seen ((r, mid) :: ks) st1 (tr ++ o1)).
-    { revert E1. destruct (ty =? 0); intros E1.
-      - apply (hist_recv seen ks st tr r mid false st1 o1 S Hh E1).
-      - inv E1. rewrite app_nil_r. apply (hist_ks_mono seen ks); auto. intros x Hx. right. exact Hx. }
-    rewrite app_assoc. apply (hist_same_exch seen ((r, mid) :: ks) _ st1); auto. intros x Hx. right. exact Hx.
-  - inv H. rewrite app_nil_r. exact Hh.
-Qed.
 
 (* ---- whole runs *)
 Fixpoint wf_events (seen : list Z) (evs : list event) : Prop :=
@@ -431,6 +512,14 @@ Proof.
   - intros r q p Hq Hp. destruct (P2 r q p Hq Hp); auto.
 Qed.
 
+Lemma pend_dispatch : forall ks st r st' o, Pend ks st -> mm_dispatch_error st r = (st', o) -> Pend ks st'.
+Proof.
+  intros ks st r st' o [P1 P2] H. unfold mm_dispatch_error, tm_dispatch_error in H. inv H. split; cbn.
+  - intros e He. apply filter_In in He. destruct He as [He Hr]. destruct (P1 e He) as [Ho|Hg]; auto. left. apply filter_In. split; auto.
+  - intros r' q p Hq Hp. apply in_qdel in Hq. destruct Hq as [Hq Hne]. destruct (P2 r' q p Hq Hp) as [Ho|Hg]; auto. left.
+    apply filter_In. split; auto. cbn. apply negb_true_iff. apply Z.eqb_neq. exact Hne.
+Qed.
+
 Lemma pend_recv : forall seen ks st r mid b st' o, Struct seen st -> Pend ks st -> _remove_exchange st r mid b = (st', o) ->
   Pend ((r, mid) :: ks) st'.
 Proof.
@@ -451,13 +540,15 @@ Proof.
     + apply Hmono; auto. intros r' q p Hq Hp. split; eauto.
     + destruct (pop_facts seen st _ mon h S X) as (Hin & _ & _ & _ & _ & Hrest & Hbr & _). cbn [fst] in *.
       change r with (fst (r, mid)) in C. apply (continue_after_pop seen st (r, mid) mon h st2 st' o2 S X En Er Ex Eb Enr) in C.
-      destruct C as (_ & _ & _ & Eo' & q & Q & Hq). cbn [fst] in *. pose proof (qget_in _ _ _ Q) as HQ.
+      destruct C as (_ & _ & q & Q & Hq). cbn [fst] in *. pose proof (qget_in _ _ _ Q) as HQ.
       destruct q as [|[m2 mon2] rest].
-      * destruct Hq as (_ & Ex' & Eb'). apply Hmono; auto.
+      * destruct Hq as (_ & Ex' & Eb' & _ & Eo'). apply Hmono; auto.
         -- intros e He. rewrite Ex' in He. destruct (Hrest e He) as (He1 & _ & He3). split; auto. intros Ho. left. rewrite Eo'. apply Hkeep; auto.
         -- intros r' q' p Hq' Hp. rewrite Eb' in Hq'. apply in_qdel in Hq'. destruct Hq' as [Hq' _]. split; [eauto|].
            intros Ho. left. rewrite Eo'. apply Hkeep; auto. cbn. apply Hbr. eapply in_back_rids; eauto.
-      * destruct Hq as (-> & Hr2 & _ & _ & t & _ & _ & Ex' & Eb'). split.
+      * destruct Hq as (-> & Hr2 & _ & _ & t & st1 & oe & _ & _ & _ & Eo' & Ex' & Eb' & Hcase).
+        assert (H1 : Pend ((r, mid) :: ks) st1); [|destruct Hcase as [(_ & -> & _)|(_ & D & _)]; [exact H1|eapply pend_dispatch; eauto]].
+        split.
         -- intros e He. rewrite Ex' in He. apply in_xset in He. destruct He as [->|[He _]].
            ++ unfold e_rid, e_remote, e_timer. cbn. rewrite Hr2. destruct (P2 r _ (m2, m_rid m2) HQ (or_introl eq_refl)) as [Ho|Hg]; [left|right; right; exact Hg].
               rewrite Eo'. apply Hkeep; auto. cbn. apply Hbr. apply (in_back_rids _ r _ (m2, m_rid m2) HQ). left. reflexivity.
@@ -483,7 +574,7 @@ Proof.
     - intros r0 q p Hq Hp. destruct (H2 r0 q p Hq Hp) as [[q0 [Hq0 Hp0]] Hk']. destruct (P2 r0 q0 p Hq0 Hp0) as [Ho|Hg]; auto. }
   destruct e as [rid r tn|r b mid|t| | |r|rid|r ty mid rid|r on]; cbn [step ks_after] in *.
   - destruct W as [W1 W2]. pose proof (request_shape _ _ _ _ _ _ _ S W1 W2 H) as Sh. cbv zeta in Sh.
-    destruct Sh as (Eo & [(q & Q & -> & Ex & Eb)|(Q & Hno & t & sq & Hrg & -> & Ex & Eb & Ebl)]).
+    destruct Sh as [(q & Q & -> & Ex & Eb & Eo)|(Q & Hno & t & sq & st1 & oe & Hrg & S1 & En1 & Eo & Ex & Eb & Ebl & Hcase)].
     + split.
       * intros e He. rewrite Ex in He. destruct (P1 e He) as [Ho|Hg]; auto. left. rewrite Eo. apply in_app_iff. auto.
       * intros r' q' p Hq Hp. rewrite Eb in Hq. apply in_qset in Hq. destruct Hq as [Hq|[Hq _]].
@@ -491,7 +582,8 @@ Proof.
            ++ destruct (P2 r q p (qget_in _ _ _ Q) Hp) as [Ho|Hg]; auto. left. rewrite Eo. apply in_app_iff. auto.
            ++ left. rewrite Eo. apply in_app_iff. right. left. reflexivity.
         -- destruct (P2 r' q' p Hq Hp) as [Ho|Hg]; auto. left. rewrite Eo. apply in_app_iff. auto.
-    + split.
+    + assert (H1 : Pend ks st1); [|destruct Hcase as [(_ & -> & _)|(_ & D & _)]; [exact H1|eapply pend_dispatch; eauto]].
+      split.
       * intros e He. rewrite Ex in He. apply in_xset in He. destruct He as [->|[He _]].
         -- left. rewrite Eo. apply in_app_iff. right. left. reflexivity.
         -- destruct (P1 e He) as [Ho|Hg]; auto. left. rewrite Eo. apply in_app_iff. auto.
@@ -504,8 +596,9 @@ Proof.
     assert (S1 : Struct seen (set_now st (Z.max (now st) (h_due h)))) by (apply struct_set_now; auto).
     pose proof (retransmit_struct _ _ _ _ _ _ S1 He1 He2 H) as Sh. cbv zeta in Sh. destruct Sh as (_ & _ & _ & X & Sh).
     destruct (pop_facts seen _ _ _ h S1 X) as (Hin & _ & _ & _ & _ & Hrest & _). proj.
-    destruct Sh as [(_ & _ & Ex & Eb & Eo)|(_ & _ & Ex & Eb & Eo)]; proj.
-    + split.
+    destruct Sh as [(_ & st1 & oe & _ & _ & Ex & Eb & Eo & Hcase)|(_ & _ & Ex & Eb & Eo)]; proj.
+    + assert (H1 : Pend ks st1); [|destruct Hcase as [(_ & -> & _)|(_ & D & _)]; [exact H1|eapply pend_dispatch; eauto]].
+      split.
       * intros e' He'. rewrite Ex in He'. apply in_xset in He'. destruct He' as [->|[He' _]].
         -- rewrite Eo. apply (P1 _ Hin).
         -- rewrite Eo. apply P1. apply Hrest in He'. tauto.
@@ -520,8 +613,9 @@ Proof.
     destruct (next_timer_facts _ _ N) as (e & He1 & He2 & Hmin).
     pose proof (retransmit_struct _ _ _ _ _ _ S He1 He2 H) as Sh. cbv zeta in Sh. destruct Sh as (_ & _ & _ & X & Sh).
     destruct (pop_facts seen _ _ _ h S X) as (Hin & _ & _ & _ & _ & Hrest & _). proj.
-    destruct Sh as [(_ & _ & Ex & Eb & Eo)|(_ & _ & Ex & Eb & Eo)]; proj.
-    + split.
+    destruct Sh as [(_ & st1 & oe & _ & _ & Ex & Eb & Eo & Hcase)|(_ & _ & Ex & Eb & Eo)]; proj.
+    + assert (H1 : Pend ks st1); [|destruct Hcase as [(_ & -> & _)|(_ & D & _)]; [exact H1|eapply pend_dispatch; eauto]].
+      split.
       * intros e' He'. rewrite Ex in He'. apply in_xset in He'. destruct He' as [->|[He' _]].
         -- rewrite Eo. apply (P1 _ Hin).
         -- rewrite Eo. apply P1. apply Hrest in He'. tauto.
@@ -540,17 +634,66 @@ Proof.
       apply filter_In. split; auto. cbn. apply negb_true_iff. apply Z.eqb_neq. exact Hne.
     + intros r' q' p Hq' Hp. split; [eauto|]. intros Ho. destruct (Z.eq_dec (m_rid (fst p)) rid) as [<-|Hne]; [right; left; reflexivity|left].
       apply filter_In. split; auto. cbn. apply negb_true_iff. apply Z.eqb_neq. exact Hne.
-  - destruct (response_shape _ _ _ _ _ _ _ _ S H) as (st1 & o1 & o2 & E1 & -> & S1 & Hn1 & En & Ex & Eb & Er & Enr & Hinc & Hkeep & _).
+  - destruct (response_shape _ _ _ _ _ _ _ _ S H) as (st1 & o1 & st2 & o2 & o3 & E1 & -> & S1 & Hn1 & S2 & En & Ex & Eb & Hinc & Hkeep & _ & Hcase).
     assert (H1 : Pend ((r, mid) :: ks) st1).
     { revert E1. destruct (ty =? 0); intros E1.
       - apply (pend_recv seen ks st r mid false st1 o1 S (conj P1 P2) E1).
       - inv E1. apply (pend_mono ks); [split; auto|]. intros x Hx. right. exact Hx. }
-    destruct H1 as [Q1 Q2]. split.
-    + intros e He. rewrite Ex in He. destruct (Q1 e He) as [Ho|Hg]; [|right; right; exact Hg].
-      destruct (Z.eq_dec (e_rid e) rid) as [<-|Hne]; [right; left; reflexivity|left; apply Hkeep; auto].
-    + intros r' q' p Hq' Hp. rewrite Eb in Hq'. destruct (Q2 r' q' p Hq' Hp) as [Ho|Hg]; [|right; right; exact Hg].
-      destruct (Z.eq_dec (m_rid (fst p)) rid) as [<-|Hne]; [right; left; reflexivity|left; apply Hkeep; auto].
+    assert (H2 : Pend (gone_key rid :: (r, mid) :: ks) st2).
+    { destruct H1 as [Q1 Q2]. split.
+      + intros e He. rewrite Ex in He. destruct (Q1 e He) as [Ho|Hg]; [|right; right; exact Hg].
+        destruct (Z.eq_dec (e_rid e) rid) as [<-|Hne]; [right; left; reflexivity|left; apply Hkeep; auto].
+      + intros r' q' p Hq' Hp. rewrite Eb in Hq'. destruct (Q2 r' q' p Hq' Hp) as [Ho|Hg]; [|right; right; exact Hg].
+        destruct (Z.eq_dec (m_rid (fst p)) rid) as [<-|Hne]; [right; left; reflexivity|left; apply Hkeep; auto]. }
+    destruct Hcase as [(-> & _)|(_ & D)]; [exact H2|eapply pend_dispatch; eauto].
   - inv H. split; auto.
+Qed.
+
+Lemma pend_forget : forall ks st1 st2 rid, Pend ks st1 -> active_exchanges st2 = active_exchanges st1 -> backlogs st2 = backlogs st1 ->
+  (forall p, In p (outgoing_requests st1) -> fst p <> rid -> In p (outgoing_requests st2)) -> Pend (gone_key rid :: ks) st2.
+Proof.
+  intros ks st1 st2 rid [Q1 Q2] Ex Eb Hkeep. split.
+  - intros e He. rewrite Ex in He. destruct (Q1 e He) as [Ho|Hg]; [|right; right; exact Hg].
+    destruct (Z.eq_dec (e_rid e) rid) as [<-|Hne]; [right; left; reflexivity|left; apply Hkeep; auto].
+  - intros r' q' p Hq' Hp. rewrite Eb in Hq'. destruct (Q2 r' q' p Hq' Hp) as [Ho|Hg]; [|right; right; exact Hg].
+    destruct (Z.eq_dec (m_rid (fst p)) rid) as [<-|Hne]; [right; left; reflexivity|left; apply Hkeep; auto].
+Qed.
+
+Lemma step_hist : forall seen ks st tr e st' o, Struct seen st -> Hist seen ks st tr -> Pend ks st -> wf_event seen e -> step st e = (st', o) ->
+  Hist (seen_after seen e) (ks_after ks e) st' (tr ++ o).
+Proof.
+  intros seen ks st tr e st' o S Hh Hp W H. destruct e as [rid r tn|r b mid|t| | |r|rid|r ty mid rid|r on]; cbn [step seen_after ks_after] in *.
+  - destruct W as [W1 W2]. eapply hist_request; eauto.
+  - eapply hist_recv; eauto.
+  - inv H. rewrite app_nil_r. exact Hh.
+  - destruct (next_timer st) as [h|] eqn:N; [|inv H; rewrite app_nil_r; exact Hh].
+    destruct (next_timer_facts _ _ N) as (e & He1 & He2 & Hmin).
+    assert (S1 : Struct seen (set_now st (Z.max (now st) (h_due h)))) by (apply struct_set_now; auto).
+    eapply hist_retransmit in H; eauto. cbn.
+    pose proof (s_ex _ _ S) as Hex. rewrite Forall_forall in Hex. specialize (Hex e He1). unfold entry_ok in Hex. rewrite He2 in Hex. lia.
+  - destruct (next_timer st) as [h|] eqn:N; [|inv H; rewrite app_nil_r; exact Hh].
+    destruct (h_due h <=? now st) eqn:Hd; [|inv H; rewrite app_nil_r; exact Hh].
+    destruct (next_timer_facts _ _ N) as (e & He1 & He2 & Hmin).
+    eapply hist_retransmit in H; eauto.
+    pose proof (s_ex _ _ S) as Hex. rewrite Forall_forall in Hex. specialize (Hex e He1). unfold entry_ok in Hex. rewrite He2 in Hex. lia.
+  - eapply hist_dispatch; eauto. intros x Hx. right. exact Hx.
+  - inv H. apply (hist_same_exch seen ks _ st); auto. intros x Hx. right. exact Hx.
+  - destruct (response_shape _ _ _ _ _ _ _ _ S H) as (st1 & o1 & st2 & o2 & o3 & E1 & -> & S1 & Hn1 & S2 & En & Ex & Eb & Hinc & Hkeep & Ho2 & Hcase).
+    assert (H1 : Hist seen ((r, mid) :: ks) st1 (tr ++ o1) /\ Pend ((r, mid) :: ks) st1).
+    { revert E1. destruct (ty =? 0); intros E1.
+      - split; [apply (hist_recv seen ks st tr r mid false st1 o1 S Hh Hp E1)|apply (pend_recv seen ks st r mid false st1 o1 S Hp E1)].
+      - inv E1. rewrite app_nil_r. split; [apply (hist_ks_mono seen ks)|apply (pend_mono ks)]; auto; intros x Hx; right; exact Hx. }
+    destruct H1 as [H1 P1].
+    assert (H2 : Hist seen (gone_key rid :: (r, mid) :: ks) st2 ((tr ++ o1) ++ o2)).
+    { apply (hist_same_exch seen ((r, mid) :: ks) _ st1); auto; [|intros x Hx; right; exact Hx].
+      destruct Ho2 as [->| ->]; intros t m Hi; cbn in Hi; intuition discriminate. }
+    pose proof (pend_forget _ _ _ rid P1 Ex Eb Hkeep) as P2.
+    replace (tr ++ o1 ++ o2 ++ o3) with (((tr ++ o1) ++ o2) ++ o3) by (rewrite !app_assoc; reflexivity).
+    destruct Hcase as [(-> & Ho3)|(_ & D)].
+    + apply (hist_same_exch seen (gone_key rid :: (r, mid) :: ks) (gone_key rid :: (r, mid) :: ks) st2); auto; [|apply incl_refl].
+      destruct Ho3 as [->|[b ->]]; intros t m Hi; cbn in Hi; intuition discriminate.
+    + eapply hist_dispatch; eauto. apply incl_refl.
+  - inv H. rewrite app_nil_r. exact Hh.
 Qed.
 
 Lemma run_inv : forall evs seen ks st tr st' os, Struct seen st -> Hist seen ks st tr -> Pend ks st -> wf_events seen evs ->
